@@ -10,3 +10,7 @@ import Dippy.Props.C14
 #print axioms Dippy.C14.filterMap_only_mcp
 #print axioms Dippy.C14.mcp_lines_invisible_to_shell
 #print axioms Dippy.C14.shell_lines_invisible_to_mcp
+#print axioms Dippy.C14.merge_mcp_only
+#print axioms Dippy.C14.merge_shell_only
+#print axioms Dippy.C14.layered_mcp_ignores_shell
+#print axioms Dippy.C14.layered_shell_ignores_mcp
